@@ -208,13 +208,14 @@ PROPS.update({
     "C12": net_prop(
         level_text="Seeded exploration: module trees (depth <= 4, fan-out <= 5, prefix-sharing names) inserted in random valid orders with 1..4 "
                    "start stages per module, invalid builder calls mixed in, ordinary traffic afterwards; the recorded at_sim_start / "
-                   "at_sim_end calls must equal the stage-major depth-first pre-order sequence computed from the declared tree.",
+                   "at_sim_end calls must equal the stage-major depth-first pre-order sequence computed from the declared tree. One fault-free program in five "
+                   "hands the application that run() returns to a second runtime and runs it again: both simulations must show the complete life cycle.",
         level_note="Trusted: the reference sequence generator (20 lines). The schedule dimension of this property is the insertion order.",
         runs={"quick": 400000, "thorough": 17000000},
         rule="module trees x valid insertion orders x stage counts; distinct = distinct program hash; non-trivial = insertion order differs "
              "from pre-order and some module declares >= 2 stages",
         fault_probes=["invalid_node_rejected"],
-        expected_probes=["invalid_node_rejected", "insertion_order_differs_from_preorder", "tree_query", "inner_application_fails_at_the_end"],
+        expected_probes=["invalid_node_rejected", "insertion_order_differs_from_preorder", "tree_query", "inner_application_fails_at_the_end", "application_run_a_second_time"],
         assumptions=["sampled, not exhaustive"]),
     "C14": net_prop(
         engine="net+asy",
